@@ -146,6 +146,71 @@ def depth_probe(sink, kind, nil, ns):
     sink.case(harness.fp('depth', kind, nil, ns), True, dict(ident, threshold=first.get('flatten')))
 
 
+DEEP_OPS = ('repr', 'paths', 'accessors', 'entries-children', 'hash', 'eq', 'is_prefix', 'unflatten', 'flatten_up_to', 'compose', 'transform', 'broadcast', 'traverse', 'walk', 'pickle',
+            'tree_paths-of-unflattened')
+DEEP_BUILDS = (('compose', L + 1), ('compose', 4096), ('compose', 1 << 17), ('compose-dict', 1 << 17), ('ctor', L + 1), ('ctor', 3000), ('transform', L + 1))
+
+
+def deep_spec(how, depth):
+    """A treespec nested deeper than any tree that flatten accepts, built through the public treespec API only."""
+    leaf = optree.treespec_leaf()
+    if how in ('compose', 'compose-dict'):
+        one = optree.tree_structure([0] if how == 'compose' else {'k': 0})
+        s, d = one, 1
+        while d < depth:
+            if d * 2 <= depth:
+                s, d = s.compose(s), d * 2
+            else:
+                s, d = s.compose(one), d + 1
+        return s
+    if how == 'ctor':
+        s = leaf
+        for _ in range(depth):
+            s = optree.treespec_tuple([s])
+        return s
+    one = optree.tree_structure((0,))
+    s = one
+    for _ in range(depth - 1):
+        s = s.transform(None, lambda _s: one)
+    return s
+
+
+def deep_spec_op(sink, how, depth, op):
+    """One treespec method on a treespec deeper than the limit: it returns or raises a Python exception (the runner sees anything else)."""
+    if os.environ.get('VERIF_VARIANT') == 'asan':
+        depth = min(depth, 1 << 14)  # the sanitizer build only has to see the same code paths; stack exhaustion is the production build's business
+    if op == 'repr' and depth > (1 << 14):
+        # repr builds the nested string by repeated concatenation: quadratic in the depth (minutes at 2**17), finite - not a subject of this clause
+        sink.count('deepspec-skipped:repr-quadratic')
+        return
+    ident = dict(part='deepspec', build=how, depth=depth, op=op)
+    s = deep_spec(how, depth)
+    leafobj = U.Leaf('deep')
+    f = {
+        'repr': lambda: len(repr(s)),
+        'paths': lambda: len(s.paths()),
+        'accessors': lambda: len(s.accessors()),
+        'entries-children': lambda: (s.entries(), len(s.children()), s.child(0).num_nodes, s.one_level().num_nodes),
+        'hash': lambda: hash(s) is not None,
+        'eq': lambda: s == deep_spec(how, depth),
+        'is_prefix': lambda: s.is_prefix(s) and s <= s,
+        'unflatten': lambda: type(s.unflatten([leafobj])).__name__,
+        'flatten_up_to': lambda: len(s.flatten_up_to(s.unflatten([leafobj]))),
+        'compose': lambda: s.compose(s.child(0)).num_nodes,
+        'transform': lambda: s.transform().num_nodes,
+        'broadcast': lambda: s.broadcast_to_common_suffix(s).num_nodes,
+        'traverse': lambda: type(s.traverse([leafobj], lambda x: x, lambda x: x)).__name__,
+        'walk': lambda: type(s.walk([leafobj], lambda a, b, c: c, lambda x: x)).__name__,
+        'pickle': lambda: pickle.loads(pickle.dumps(s)).num_nodes,
+        'tree_paths-of-unflattened': lambda: len(optree.tree_paths(s.unflatten([leafobj]))),
+    }[op]
+    k, v = outcome(f)
+    sink.check(k not in ('SystemError', 'InternalError'), f'deepspec/internal-error/{op}', 'a treespec deeper than the limit makes every method return or raise a documented Python exception', ident, lambda: (k, repr(v)[:200]))
+    sink.count(f'deepspec-outcome:{op}:{"ok" if k == "ok" else k}')
+    sink.count('deepspec-operations')
+    sink.case(harness.fp('deepspec', how, depth, op), True, dict(ident, outcome=k) if depth > 5000 else None)
+
+
 def depth_cyclic(sink):
     li = []
     li.append(li)
@@ -685,6 +750,8 @@ def journal_cases(shard):
         for nil, ns in ((False, ''), (True, U.NS)) if tier != 'quick' or kind in ('list', 'dict') else ((False, ''),):
             cases.append(dict(part='depth', kind=kind, nil=nil, ns=ns))
     cases.append(dict(part='cyclic'))
+    for how, depth in DEEP_BUILDS:
+        cases.append(dict(part='deepspec', build=how, depth=depth))
     if only_depth:
         return [c for j, c in enumerate(cases) if j % n == i]
     cells = matrix_cells()
@@ -709,6 +776,10 @@ def journal_run(sink, case, sub_start, progress):
     elif part == 'cyclic':
         progress(0)
         depth_cyclic(sink)
+    elif part == 'deepspec':
+        for j in range(sub_start, len(DEEP_OPS)):
+            progress(j)
+            deep_spec_op(sink, case['build'], case['depth'], DEEP_OPS[j])
     elif part == 'matrix':
         cells = matrix_cells()
         for j in range(max(case['start'], case['start'] + sub_start), case['stop']):
@@ -772,6 +843,10 @@ def run_shard(sink, tier, seed, shard):  # noqa: C901
                     where = dict(case, index=case['start'] + (d['sub'] or 0))
                 elif case.get('part') == 'depth':
                     mech = f'depth/{case.get("kind")}'
+                elif case.get('part') == 'deepspec':
+                    op_ = DEEP_OPS[d['sub']] if d['sub'] is not None and d['sub'] < len(DEEP_OPS) else '?'
+                    where = dict(case, op=op_)
+                    mech = f'deepspec/{case.get("build")}/{op_}'
                 if d['rc'] == 'stalled':
                     # a sub-step that normally takes milliseconds made no progress for STALL_S seconds; it is a hang of the engine only if the
                     # worker burnt (most of) that time on a CPU and a thread sits inside the extension - otherwise the machine was starved
